@@ -13,34 +13,42 @@ import sys
 ap = argparse.ArgumentParser()
 ap.add_argument("--only", default="")
 ap.add_argument("--tier", default="quick")
+ap.add_argument("--skip-confirm", action="store_true", help="do not repeat the demo / pinned-test confirmation done when the change was kept")
+ap.add_argument("--jobs", type=int, default=1, help="seeded changes examined in parallel (each check then gets 16/jobs worker processes)")
 a = ap.parse_args()
 only = set(x for x in a.only.split(",") if x)
 rows = []
 head = subprocess.run(["git", "-C", "/repo", "rev-parse", "--short", "HEAD"], capture_output=True, text=True).stdout.strip()
-for d in sorted(glob.glob("/verif/seeded/*/")):
+def one(d):
     name = os.path.basename(d.rstrip("/"))
-    if only and name not in only:
-        continue
     meta = json.load(open(d + "meta.json"))
     if meta.get("status", "").startswith("obsolete"):
-        rows.append((name, meta.get("property"), "-", "obsolete (code replaced by a fix)", ""))
-        continue
+        return (name, meta.get("property"), "-", "obsolete (code replaced by a fix)", "")
     props = sorted(meta.get("checks", {})) or [meta.get("property")]
     patch = "patch_ported.diff" if os.path.exists(d + "patch_ported.diff") else "patch.diff"
-    r = subprocess.run(["/verif/tools/seedcheck.py", d, "--props", ",".join(props), "--patch", patch, "--tier", a.tier, "--keep", name,
-                        "--property", meta.get("property", "")], capture_output=True, text=True)
+    cmd = ["/verif/tools/seedcheck.py", d, "--props", ",".join(props), "--patch", patch, "--tier", a.tier, "--keep", name, "--property", meta.get("property", "")]
+    if a.skip_confirm:
+        cmd.append("--skip-confirm")
+    env = dict(os.environ, VERIF_PROCS=str(max(16 // a.jobs, 2)))
+    r = subprocess.run(cmd, capture_output=True, text=True, env=env)
     out = r.stdout
     try:
         res = json.loads(out[out.index("SEEDCHECK") + 9: out.rindex("}") + 1])
     except Exception:
-        rows.append((name, meta.get("property"), "?", "seedcheck output unreadable", out[-200:]))
-        continue
+        return (name, meta.get("property"), "?", "seedcheck output unreadable", out[-200:])
     c = res["confirm"]
-    conf = f"apply={c.get('apply_rc')} demo-clean={c.get('demo_clean_rc')} tests={'ok' if c.get('pytest_rc') == 0 else c.get('pytest_rc')} demo-patched={c.get('demo_patched_rc')}"
+    conf = "confirmed when kept" if a.skip_confirm else f"apply={c.get('apply_rc')} demo-clean={c.get('demo_clean_rc')} tests={'ok' if c.get('pytest_rc') == 0 else c.get('pytest_rc')} demo-patched={c.get('demo_patched_rc')}"
     verdicts = ", ".join(f"{p}:{v['verdict']}" for p, v in res["checks"].items()) or "not run"
     sigs = "; ".join(s.split(" count=")[0].replace("sig=", "") for p, v in res["checks"].items() for s in v["sigs"][:2])
-    rows.append((name, meta.get("property"), patch, verdicts + " | " + conf, sigs[:160]))
     print(name, verdicts, conf, flush=True)
+    return (name, meta.get("property"), patch, verdicts + " | " + conf, sigs[:160])
+
+
+from concurrent.futures import ThreadPoolExecutor
+
+dirs = [d for d in sorted(glob.glob("/verif/seeded/*/")) if not only or os.path.basename(d.rstrip("/")) in only]
+with ThreadPoolExecutor(a.jobs) as ex:
+    rows = list(ex.map(one, dirs))
 with open("/verif/seeded/RESULTS.md", "w") as f:
     f.write(f"# Seeded defects re-run against /repo {head} (tier {a.tier})\n\n")
     f.write("A change counts as detected when at least one registered check exits 1 on it (CAUGHT). `MISSED` next to `CAUGHT` means the\n"
